@@ -32,11 +32,13 @@ def find_fn(prog, pattern):
     return c[0]
 
 
-def check(pc, claim, timeout=60000):
+def check(pc, claim, timeout=60000, bv_first=None):
     """Is `claim` valid under path condition pc?  Returns ('unsat', None) when it holds, ('sat', model) with a
-    counterexample, or ('unknown', None)."""
+    counterexample, or ('unknown', None).  When bit-blasting gives no answer the query is decided over the integers by
+    an exact translation (mirsmt/bv2int.py); an integer counterexample is turned back into a bit-vector model by pinning
+    the variables and re-solving."""
     s = Solver()
-    s.set('timeout', timeout)
+    s.set('timeout', bv_first if bv_first is not None else timeout)
     s.add(pc)
     s.add(Not(claim))
     r = s.check()
@@ -44,7 +46,34 @@ def check(pc, claim, timeout=60000):
         return 'unsat', None
     if r == sat:
         return 'sat', s.model()
+    from .bv2int import check_int, NotInt
+    try:
+        st, info = check_int(list(pc), claim, timeout=timeout)
+    except NotInt:
+        return 'unknown', None
+    USED_INT[0] += 1
+    if st == 'unsat':
+        return 'unsat', None
+    if st == 'sat':
+        from z3 import BitVecVal, is_bv, z3util
+        vs = {}
+        for f in list(pc) + [claim]:
+            for v in z3util.get_vars(f):
+                vs[str(v)] = v
+        s2 = Solver()
+        s2.set('timeout', timeout)
+        s2.add(pc)
+        s2.add(Not(claim))
+        for name, val in info.get('int_model', {}).items():
+            v = vs.get(name[len('bvvar!'):])
+            if v is not None and is_bv(v):
+                s2.add(v == BitVecVal(val, v.size()))
+        if s2.check() == sat:
+            return 'sat', s2.model()
     return 'unknown', None
+
+
+USED_INT = [0]
 
 
 def satisfiable(conds, timeout=60000):
